@@ -143,6 +143,10 @@ def gen_gdb_session(seed, tier, weights, pid, ncmd_range=(1, 6), initial_filter_
         # output-side fault: Ctrl-C inside the write of the k-th live message line (not on the messages that also rename the
         # connection): that line is lost on the screen, nothing else changes
         cfg['ctrl_c_in_message_line'] = rng.choice([0, 0, 1, 2, 3, 5, 8, 13])
+    elif rng.random() < 0.15:
+        # output-side fault: Ctrl-C inside the k-th gdb.write of a command that changes nothing (a listing, help): the command is
+        # abandoned; filter, breakpoint, selection and the record are as before, which the rest of the session shows
+        cfg['ctrl_c_in_command_output'] = rng.choice([0, 0, 1, 2, 3, 5, 8])
     if closing:
         intents += [['cmd', 'wl connection all', {'t': 'connection', 'to': 'all'}],
                     ['cmd', 'wllist *', {'t': 'list', 'm': {'kind': 'star'}, 'cap': None, 'closing': True}]]
@@ -168,7 +172,7 @@ def run_and_judge_gdb(sc, want, prefix):
     if sim.start_exception:
         V.add(prefix + '/exception', 'startup', sim.start_exception[-1200:])
         return st, res, sim.tracker, V, sim
-    bad = [h for h in sim.hits if h['exception']] + [c for c in sim.cmd_log if c['exception']]
+    bad = [h for h in sim.hits if h['exception']] + [c for c in sim.cmd_log if c['exception'] and not c.get('injected_fault')]
     if bad:
         V.add(prefix + '/exception', c18.trigger_of(bad[0]['exception']), bad[0]['exception'][-1200:])
         return st, res, sim.tracker, V, sim
